@@ -218,36 +218,34 @@ Proof.
 Qed.
 
 (* ---------- integer indices ---------- *)
-Lemma norm_int_in_range (strict its : bool) (i n : Z) (l : list item) (sh : list Z) :
+Lemma norm_int_in_range (its : bool) (i n : Z) (l : list item) (sh : list Z) :
   (- n <= i < n)%Z ->
-  norm_ints strict its (IInt i :: l) (n :: sh) =
-  bind (norm_ints strict its l sh) (fun r =>
+  norm_ints its (IInt i :: l) (n :: sh) =
+  bind (norm_ints its l sh) (fun r =>
     Ok ((if its then let i' := (if i <? 0 then i + n else i)%Z in ISlice (Some i') (Some (i' + 1)%Z) None
          else IInt i) :: r)).
 Proof.
   intros Hi. cbn [norm_ints].
-  replace ((n <=? (if i <? 0 then i + n else i))%Z || (strict && ((if i <? 0 then i + n else i) <? 0)%Z)) with false;
+  replace ((n <=? (if i <? 0 then i + n else i))%Z || ((if i <? 0 then i + n else i) <? 0)%Z) with false;
     [reflexivity|].
   symmetry. apply orb_false_iff. destruct (i <? 0)%Z eqn:E; [apply Z.ltb_lt in E|apply Z.ltb_ge in E]; split.
   - apply Z.leb_gt. lia.
-  - apply andb_false_iff. right. apply Z.ltb_ge. lia.
+  - apply Z.ltb_ge. lia.
   - apply Z.leb_gt. lia.
-  - apply andb_false_iff. right. apply Z.ltb_ge. lia.
+  - apply Z.ltb_ge. lia.
 Qed.
-(* the repaired variant rejects every integer outside [-n, n) ... *)
-Lemma norm_int_out_of_range_strict (its : bool) (i n : Z) (l : list item) (sh : list Z) :
-  (i < - n \/ n <= i)%Z -> (0 <= n)%Z -> norm_ints true its (IInt i :: l) (n :: sh) = IndexErr.
+(* every integer outside [-n, n) is rejected *)
+Lemma norm_int_out_of_range (its : bool) (i n : Z) (l : list item) (sh : list Z) :
+  (i < - n \/ n <= i)%Z -> (0 <= n)%Z -> norm_ints its (IInt i :: l) (n :: sh) = IndexErr.
 Proof.
   intros Hi Hn. cbn [norm_ints].
-  replace ((n <=? (if i <? 0 then i + n else i))%Z || (true && ((if i <? 0 then i + n else i) <? 0)%Z)) with true;
+  replace ((n <=? (if i <? 0 then i + n else i))%Z || ((if i <? 0 then i + n else i) <? 0)%Z) with true;
     [reflexivity|].
   symmetry. apply orb_true_iff. destruct (i <? 0)%Z eqn:E; [apply Z.ltb_lt in E|apply Z.ltb_ge in E].
   - destruct Hi; [right; apply Z.ltb_lt; lia | lia].
   - left. apply Z.leb_le. lia.
 Qed.
-(* ... the code at hand accepts integers below -n (finding C14/getitem-int-below-minus-n) *)
-Lemma norm_int_below_minus_n_accepted :
-  norm_ints false true [IInt (-5)] [3%Z] = Ok [ISlice (Some (-2)%Z) (Some (-1)%Z) None].
+Lemma norm_int_below_minus_n_example : norm_ints true [IInt (-5)] [3%Z] = IndexErr.
 Proof. reflexivity. Qed.
 Lemma slice_adjust_cell (n i : Z) : (0 <= i < n)%Z ->
   slice_adjust n (Some i, Some (i + 1)%Z, None) = Some (i, (i + 1)%Z, 1%Z).
